@@ -36,7 +36,7 @@ func TestVerif(t *testing.T) {
 type sop struct {
 	K string `json:"k"`           // newpart write seekstart seekcur finalize openpart openfile readn drain close remove
 	A int    `json:"a,omitempty"` // argument (payload index, offset, part index, reader index, n)
-	B int    `json:"b,omitempty"` // second argument (buffer size for drain)
+	B int    `json:"b,omitempty"` // second argument (buffer size for drain; write: 1 / 2 = preceded by a refused seek)
 	Z bool   `json:"z,omitempty"` // readn / drain: a zero-length Read precedes every Read (it must not consume anything)
 }
 
@@ -141,6 +141,9 @@ func (s *mstate) enabled(cfg c17cfg) []sop {
 				}
 				if s.total()+grow <= cfg.maxBytes {
 					ops = append(ops, sop{K: "write", A: i})
+					// the same write after a seek to before the start of the part, relative to the start / to the current
+					// position: refused by every back end, and the writer stays where it was
+					ops = append(ops, sop{K: "write", A: i, B: 1 + (i+s.pos)%2})
 				}
 			}
 			for k := 0; k <= len(s.parts[last]); k++ {
@@ -153,6 +156,7 @@ func (s *mstate) enabled(cfg c17cfg) []sop {
 					ops = append(ops, sop{K: "seekcur", A: d})
 				}
 			}
+			// (writes preceded by a refused seek are generated with the writes above)
 		}
 		ops = append(ops, sop{K: "finalize"})
 	}
@@ -313,6 +317,18 @@ func (im *impl) step(o sop, want []byte) (err error) {
 		switch o.K {
 		case "write":
 			p := []byte(c17Payloads[len(im.parts)-1][o.A])
+			if o.B != 0 {
+				var err error
+				if o.B == 1 {
+					_, err = im.writer.Seek(-1, io.SeekStart)
+				} else {
+					cur, _ := im.writer.Seek(0, io.SeekCurrent)
+					_, err = im.writer.Seek(-cur-1, io.SeekCurrent)
+				}
+				if err == nil {
+					return fmt.Errorf("Seek to position -1 was accepted")
+				}
+			}
 			n, err := im.writer.Write(p)
 			if err != nil || n != len(p) {
 				return fmt.Errorf("Write(%q) = %d, %v", p, n, err)
